@@ -141,6 +141,27 @@ CLAIMED = {
         "technique": "Rocq proof (typing + path lemmas + induction over statements and recursion depth) of no-panic for certified plans + per-pair certificate evaluation + differential execution on nil-saturated values, compared inside Coq",
         "coq_targets": ["Properties/C09.vo", "Corr/MapperCorr.vo"],
     },
+    "C03": {
+        "text": "Machine-checked (Rocq) for all struct packages of the C02 grammar, all package views, all flags and ALL values: the accessor lists of shoot's analysis equal the declarative directive table (both when undirected, get/set only when directed, none for exported fields, filtered by the type-level getter/setter directive), the emitted methods are named Pascal(f)/Set+Pascal(f) and typed like the field; a run is refused iff an exported field carries a directive; get_f(set_g(v,x)) = (f = g ? x : get_f v) and a setter changes its field and no other leaf, for own and promoted accessors under Go's method selection; <T>Getter/<T>Setter embed exactly interfaces of embedded structs that are present in the package view and implemented by *E, their complete method set is table + embedded sets, and *T implements it (guards: no hidden accessor, acyclic). Three new open findings (once-per-name skip, excluded fields, hidden accessor) delimit the guard, each refuted by a Coq witness and replayed. Tied to /repo on every run by differential execution: built binary, go/types method sets/interfaces/Implements, and ~450 executed set-then-get runs, compared inside Coq.",
+        "design_ref": "DESIGN.md section 8, C03; section 13",
+        "note": COMMON_NOTE + "go/types (scope lookup, instantiation, assignability) is modelled on shoot's own output and the package view is explicit (K_embed_order); text/template is given as abstract declarations; the tie is sampled.",
+        "technique": "Rocq refinement proof (once-per-name loop ⊑ directive table; embedded-interface admission; method-set inclusion via level composition) + frame lemmas on tree values + L1 probe of directive parsers + L2 differential run of shoot/go-types/oracle vs model",
+        "coq_targets": ["Properties/C03.vo", "Corr/CtorGetSetCorr.vo", "Corr/CtorDirectiveCorr.vo", "Corr/TransferCorr.vo"],
+    },
+    "C07": {
+        "text": "Theorems for all legal iteration oracles and all directory contents: every map iteration of the modelled code is followed by a lookup-only use or a sort (sorting two permutations of a duplicate-free list gives equal lists); schedule-independence of a whole run for all four subcommands; schedule- and history-independence and 'running twice is a fixpoint' for enum, rest (outside K_rest_alias_dup) and new (outside the embedding class of K_embed_order / K_aio_overlay_stale); the five open findings are refuted in the model or replayed on the binary. Tied to /repo by byte comparison along histories (fresh, repeat, edit with stale output, delete) x 5..20 process executions per point x relocated module x [dir] from the parent, with the model predicting outcome class, files written and 'equal to the previous step'.",
+        "design_ref": "DESIGN.md section 8, C07; section 13",
+        "note": COMMON_NOTE + "The model takes no path and no clock (observed, not proved, for the implementation: two cwd dependences are known findings). gofmt/goimports are deterministic parameters. For map 'own earlier output is not read' and the all-in-one fixpoint including Clean are tied by the correspondence only.",
+        "technique": "Rocq proof (oracle-parametric model, permutation/sort lemmas, blindness to generated files via stable-sort/filter) + differential byte-level history runs of the shoot binary vs the model",
+        "coq_targets": ["Properties/C07.vo", "Corr/GenCorr.vo"],
+    },
+    "C08": {
+        "text": "Theorems over all generator states, all views and unbounded type lists: MakeData of each of the four generators is independent of the generator object's state (every per-type reset present, each shown necessary by a refutation with the reset switched off), hence Generate is a function of the views only; the view with an overlay is the view of a directory holding those files; MergeSources yields the first header, the concatenated declarations and the import union. The all-in-one output equals the one-at-a-time outputs in order (enum, rest: unconditionally; new: via overlay == directory, embedding included) and permuting -type changes no file content for generators that do not read generated files. Open findings K_embed_order and K_merge_stray_comment are proved as refutations in the model and replayed. Tied to /repo by running all-in-one / -sep / one-at-a-time / fresh / permuted invocations on generated multi-type packages of all four subcommands and comparing at AST level (astsig) inside Coq.",
+        "design_ref": "DESIGN.md section 8, C08; section 13",
+        "note": COMMON_NOTE + "Declarations are abstract (name, kind, doc, tokens); gofmt/goimports printing is a parameter; the per-type analyses are transcribed for the compact grammar of harness/histgen.py; for map the statement 'own earlier output is not read' is tied by the correspondence only.",
+        "technique": "Rocq proof (state non-interference by reset discipline, induction over the type list, stable-sort/filter lemmas, overlay=directory simulation) + differential run of the shoot binary in five invocation modes vs the model, AST-level comparison",
+        "coq_targets": ["Properties/C08.vo", "Corr/GenCorr.vo"],
+    },
 }
 
 NOT_CLAIMED = {}
